@@ -195,7 +195,7 @@ pub fn kinds() -> Vec<Kind> {
 }
 
 /// leaf styles: how placeholder leaves are replaced
-pub const STYLES: &[&str] = &["calls", "bare", "mixed-true", "mixed-false", "repeat"];
+pub const STYLES: &[&str] = &["calls", "bare", "mixed-true", "mixed-false", "repeat", "literal"];
 
 fn relabel_effects(t: &Ast, style: &str, next: &mut usize, cond: bool) -> Ast {
     let mut go = |x: &Ast, next: &mut usize, cond: bool| relabel_effects(x, style, next, cond);
@@ -222,6 +222,10 @@ fn relabel_effects(t: &Ast, style: &str, next: &mut usize, cond: bool) -> Ast {
                 }
                 // every non-condition leaf is the same call, so sibling subtrees of equal
                 // shape are structurally equal (identical conditional arms, equal map keys)
+                // no names and no calls at all: only the operator handlers are observable
+                // (an expression a "constant folder" or a result cache would call constant)
+                ("literal", true) => Ast::Bool(i % 2 == 1),
+                ("literal", false) => Ast::Num(Decimal::from(i as i64)),
                 ("repeat", true) => call("t"),
                 ("repeat", false) => Ast::Func("p1".into(), vec![]),
                 ("calls", _) => call("p"),
@@ -358,6 +362,34 @@ pub fn run_engine(text: &str, ctx: &mut Context, fault: Fault, at: usize) -> Run
     let vars = context_vars(ctx);
     let _ = take_log();
     Run { result, log, vars }
+}
+
+/// The same program through the other public entry points, un-faulted: `execute(text, ctx)`
+/// twice, and one parsed AST evaluated twice, each time on a fresh equal context. Every run
+/// is returned for comparison with the reference.
+pub fn run_engine_entry_points(text: &str) -> Vec<(&'static str, Run)> {
+    let mut v = Vec::new();
+    for name in ["execute()", "execute() again"] {
+        let ctx = engine_context();
+        arm(Fault::None, 0);
+        let result = guarded(|| expression_engine::execute(text, crate::engine::share(&ctx)).map_err(|e| format!("{:?}", e)));
+        let log = take_log();
+        let vars = context_vars(&ctx);
+        let _ = take_log();
+        v.push((name, Run { result, log, vars }));
+    }
+    if let Res::Ok(ast) = guarded(|| parse_expression(text).map_err(|e| format!("parse: {:?}", e))) {
+        for name in ["stored AST, first exec", "stored AST, second exec"] {
+            let mut ctx = engine_context();
+            arm(Fault::None, 0);
+            let result = guarded(|| ast.exec(&mut ctx).map_err(|e| format!("{:?}", e)));
+            let log = take_log();
+            let vars = context_vars(&ctx);
+            let _ = take_log();
+            v.push((name, Run { result, log, vars }));
+        }
+    }
+    v
 }
 
 pub struct ModelRun {
